@@ -83,9 +83,9 @@ def caret_problem(exc):
     if len(rows) < 4 or rows[-1] != '':
         return f'message has unexpected shape: {msg!r}'
     header, shown, caret_row = rows[-4], rows[-3], rows[-2]
-    want_header = exc.error + (f', line number {exc.line_number}' if exc.line_number is not None else '') + ':'
-    if header != want_header:
-        return f'header {header!r} != {want_header!r}'
+    # (the wording of the header line is not pinned; it has to name the error and, when known, the line number)
+    if exc.error not in header or (exc.line_number is not None and str(exc.line_number) not in header):
+        return f'header {header!r} does not carry the error text / line number {exc.line_number}'
     if not caret_row.endswith('^') or caret_row.strip() != '^':
         return f'caret row {caret_row!r}'
     ci = len(caret_row) - 1
@@ -139,7 +139,8 @@ def position_problems(exc, text, start):
 
 
 def fields(exc):
-    return (exc.error, exc.line, exc.column_number, exc.line_number, str(exc))
+    # the message is compared without its header line (which carries the line number in a wording that is not pinned)
+    return (exc.error, exc.line, exc.column_number, exc.line_number, '\n'.join(str(exc).split('\n')[-3:]))
 
 
 def check_text(text, acc, api, start=1, must_reject=False, reject_or_account=False, kind='soup', expect_col=None):
@@ -172,7 +173,7 @@ def check_text(text, acc, api, start=1, must_reject=False, reject_or_account=Fal
                 acc.violation('prepend-shift', f'{variant}: shifted text accepted\n{text!r:.500}', case)
                 return exc
             except perr as exc2:
-                want = (base[0], base[1], base[2], base[3] + k, base[4].replace(f', line number {base[3]}:', f', line number {base[3] + k}:', 1))
+                want = (base[0], base[1], base[2], base[3] + k, base[4])
                 if fields(exc2) != want:
                     acc.violation('prepend-shift', f'{variant} k={k}: {fields(exc2)[:4]!r} != {want[:4]!r}\n{text!r:.500}', case)
                     return exc
